@@ -750,13 +750,17 @@ func (i *interpreter) fround(r *smt.Term) *smt.Term {
 			i.run.stats.frounds++
 			return v
 		}
-		// Normalise signs (IEEE rounding is symmetric: fl(-x) = -fl(x)), then
+		// Normalise signs without forking (IEEE rounding is symmetric: fl(-x) = -fl(x)):
 		// m = floor(2|n|/|d|) through the shared Euclid witnesses of (2|n|, |d|).
-		neg := false
+		negT := c.False
 		if !(n.Lo != nil && n.Lo.Sign() >= 0) {
-			if n.Hi != nil && n.Hi.Sign() < 0 || !i.branch(c.Ge(n, c.Int64(0))) {
+			if n.Hi != nil && n.Hi.Sign() < 0 {
 				n = c.Neg(n)
-				neg = !neg
+				negT = c.True
+			} else {
+				nonneg := c.Le(c.Int64(0), n)
+				negT = c.Not(nonneg)
+				n = c.Ite(nonneg, n, c.Neg(n))
 			}
 		}
 		if dv, ok := d.ConstInt(); ok {
@@ -765,12 +769,16 @@ func (i *interpreter) fround(r *smt.Term) *smt.Term {
 			}
 			if dv.Sign() < 0 {
 				d = c.Neg(d)
-				neg = !neg
+				negT = c.Not(negT)
 			}
 		} else if !(d.Lo != nil && d.Lo.Sign() > 0) {
-			if d.Hi != nil && d.Hi.Sign() < 0 || !i.branch(c.Gt(d, c.Int64(0))) {
+			if d.Hi != nil && d.Hi.Sign() < 0 {
 				d = c.Neg(d)
-				neg = !neg
+				negT = c.Not(negT)
+			} else {
+				dnonneg := c.Le(c.Int64(0), d)
+				negT = c.Not(c.Eq(negT, c.Not(dnonneg))) // xor with "d is negative"
+				d = c.Ite(dnonneg, d, c.Neg(d))
 			}
 		}
 		ra := c.Mul(c.ToReal(n), c.DivR(one, c.ToReal(d))) // |r|
@@ -796,10 +804,7 @@ func (i *interpreter) fround(r *smt.Term) *smt.Term {
 			i.run.memo[key2] = v
 			i.run.stats.frounds++
 		}
-		if neg {
-			return c.Neg(v)
-		}
-		return v
+		return c.Ite(negT, c.Neg(v), v)
 	}
 	v := c.Fresh("fv", smt.SReal, nil, nil)
 	m := c.Fresh("fm", smt.SInt, nil, nil)
